@@ -64,13 +64,30 @@ pub fn block_on<F: std::future::Future>(fut: F) -> F::Output {
     };
     let mut generation = 0u64;
     let mut waker = std::task::Waker::from(Arc::new(L3Waker { thread: thread.clone(), slot: slot.clone(), generation }));
+    // a few spurious re-polls per await (an executor may poll a task that nobody woke)
+    let mut spurious_left = {
+        use shuttle::rand::Rng as _;
+        let r = shuttle::rand::thread_rng().gen::<u64>();
+        if r % 3 == 0 {
+            1 + (r >> 8) % 3
+        } else {
+            0
+        }
+    };
     loop {
         let mut cx = std::task::Context::from_waker(&waker);
         if let std::task::Poll::Ready(v) = cell.pin().poll(&mut cx) {
             return v;
         }
-        while !slot.notified.swap(false, SeqCst) {
-            shuttle::thread::park();
+        if spurious_left > 0 && !slot.notified.load(SeqCst) {
+            // poll again without having been woken, after letting other threads run
+            spurious_left -= 1;
+            shuttle::thread::yield_now();
+            slot.notified.store(false, SeqCst);
+        } else {
+            while !slot.notified.swap(false, SeqCst) {
+                shuttle::thread::park();
+            }
         }
         if fresh_wakers {
             generation += 1;
